@@ -15,6 +15,7 @@ import (
 
 	"github.com/syndtr/goleveldb/leveldb"
 	"github.com/syndtr/goleveldb/leveldb/comparer"
+	"github.com/syndtr/goleveldb/leveldb/opt"
 	"github.com/syndtr/goleveldb/leveldb/storage"
 	"verifharness/lib/dbh"
 	"verifharness/lib/vstor"
@@ -46,6 +47,9 @@ type Case struct {
 	// Interrupt > 0: the Interrupt-th rename of a rebuilt table fails once (a first Recover is interrupted in
 	// the middle of its table rebuilds and returns an error); Recover is then called again.
 	Interrupt int `json:"interrupt,omitempty"`
+	// StrictRecovery: Recover is called with opt.StrictRecovery (a table with any corruption is dropped as a
+	// whole, as documented); only the exact-contents rule and "nothing invented" apply to such tables.
+	StrictRecovery bool `json:"strict_recovery,omitempty"`
 }
 
 // Outcome of one case.
@@ -223,8 +227,11 @@ func runCase(c *Case, wantK bool, o *Outcome) {
 		live     []leveldb.VerifEntry
 		seqClose uint64
 		settled  bool
+
+		tableAboveJournal bool
+		hasFrozen         bool
 	)
-	for attempt := 0; attempt < 4 && !settled; attempt++ {
+	for attempt := 0; attempt < 3 && !settled; attempt++ {
 		if err := rn.Close(); err != nil {
 			o.Skipped = fmt.Sprintf("phase 1: Close error %v", err)
 			return
@@ -255,7 +262,10 @@ func runCase(c *Case, wantK bool, o *Outcome) {
 			}
 		}
 		if !leveldb.VerifWaitIdle(rn.DB, 30*time.Second) {
-			o.Stats["waitidle_timeout"]++
+			rn.Close()
+			o.Skipped = "phase 1: the DB did not become idle within 30 s"
+			o.Stats["skipped_waitidle_timeout"]++
+			return
 		}
 		ver = leveldb.VerifDumpVersion(rn.DB)
 		dumps = map[int64][]Entry{}
@@ -268,7 +278,6 @@ func runCase(c *Case, wantK bool, o *Outcome) {
 			}
 			dumps[t.Num] = toEntries(es)
 		}
-		var hasFrozen bool
 		live, _, hasFrozen = leveldb.VerifMemEntries(rn.DB)
 		seqClose = leveldb.VerifSeq(rn.DB)
 		if err := rn.Close(); err != nil {
@@ -295,8 +304,23 @@ func runCase(c *Case, wantK bool, o *Outcome) {
 		if !settled {
 			o.Stats["settle_retries"]++
 		}
+		maxT, minJ := int64(-1), int64(1)<<62
+		for _, fd := range rn.Stor.ListAll() {
+			if fd.Type == storage.TypeTable && fd.Num > maxT {
+				maxT = fd.Num
+			}
+			if fd.Type == storage.TypeJournal && fd.Num < minJ {
+				minJ = fd.Num
+			}
+		}
+		tableAboveJournal = maxT > minJ
 	}
 	base := rn.Stor
+	if hasFrozen {
+		o.Skipped = "phase 1: a frozen write buffer was still pending at shutdown"
+		o.Stats["skipped_frozen_at_shutdown"]++
+		return
+	}
 	if !settled {
 		// the checker sweeps what the DB left: only live tables may be present ("settled")
 		o.Stats["swept_by_checker"]++
@@ -484,8 +508,9 @@ func runCase(c *Case, wantK bool, o *Outcome) {
 		for bi := range ti.Blocks {
 			for ei := range ti.Blocks[bi].Entries {
 				e := &ti.Blocks[bi].Entries[ei]
-				add(e, ti.Damaged[bi])
-				if !ti.Damaged[bi] && e.Seq > maxSurvivingTableSeq {
+				lost := ti.Damaged[bi] || (c.StrictRecovery && anyDamaged(ti))
+				add(e, lost)
+				if !lost && e.Seq > maxSurvivingTableSeq {
 					maxSurvivingTableSeq = e.Seq
 				}
 			}
@@ -534,8 +559,15 @@ func runCase(c *Case, wantK bool, o *Outcome) {
 	rec2 := register(st, cmp, true)
 	defer unregister(st)
 	opts := cfg.Options()
+	if c.StrictRecovery {
+		opts.Strict = opt.DefaultStrict | opt.StrictRecovery
+		o.Stats["strict_recovery_cases"]++
+	}
 	what := "manifest " + c.MD.Manifest + ", CURRENT " + c.MD.Current + fmt.Sprintf(", %d damaged blocks in %d tables", nDamagedBlocks, nDamagedTables)
-	if c.Interrupt > 0 && nDamagedTables-nDeadTables > 0 {
+	if c.StrictRecovery {
+		what += ", StrictRecovery"
+	}
+	if c.Interrupt > 0 && nDamagedTables-nDeadTables > 0 && !c.StrictRecovery {
 		ft := &vstor.Fault{Kind: vstor.OpRename, Type: storage.TypeTemp, K: (c.Interrupt - 1) % (nDamagedTables - nDeadTables)}
 		st.AddFault(ft)
 		db0, err0 := leveldb.Recover(st, opts)
@@ -568,6 +600,9 @@ func runCase(c *Case, wantK bool, o *Outcome) {
 	rn2.Stor = st
 	rn2.DB = db
 	rn2.Hooks = dbh.Hooks{CheckEvery: 4}
+	if len(c.Prog.Pool) > 100 {
+		rn2.Hooks.CheckEvery = 12
+	}
 	defer rn2.Forget()
 	defer rn2.Close()
 	seqAfter := leveldb.VerifSeq(db)
@@ -687,11 +722,18 @@ func runCase(c *Case, wantK bool, o *Outcome) {
 	if nJournal > 0 {
 		o.Stats["with_journal_data"]++
 	}
+	if tableAboveJournal {
+		o.Stats["with_table_numbered_above_journal"]++
+	}
 	if damaged {
 		o.Stats["damaged_cases"]++
 		o.Stats["damaged_blocks"] += nDamagedBlocks
-		o.Stats["tables_rebuilt"] += nDamagedTables - nDeadTables
-		o.Stats["tables_unrecoverable"] += nDeadTables
+		if c.StrictRecovery {
+			o.Stats["tables_dropped_strict"] += nDamagedTables
+		} else {
+			o.Stats["tables_rebuilt"] += nDamagedTables - nDeadTables
+			o.Stats["tables_unrecoverable"] += nDeadTables
+		}
 		lost := 0
 		for _, k := range order {
 			for _, l := range perKey[k] {
@@ -763,13 +805,22 @@ func runCase(c *Case, wantK bool, o *Outcome) {
 					qs = append(qs, fmt.Sprintf("(%s, None)", coqHex(ob.k)))
 				}
 			}
-			o.KCase = renderK(cfg.CmpID, tables, batches, next, qs, edits[0].SeqNum, seqAfter, l0a, l0b)
+			o.KCase = renderK(cfg.CmpID, c.StrictRecovery, tables, batches, next, qs, edits[0].SeqNum, seqAfter, l0a, l0b)
 			o.Stats["k_cases"]++
 			if damaged {
 				o.Stats["k_cases_damaged"]++
 			}
 		}
 	}
+}
+
+func anyDamaged(ti *TableInfo) bool {
+	for _, d := range ti.Damaged {
+		if d {
+			return true
+		}
+	}
+	return false
 }
 
 func newXorShift(seed uint64) func() uint64 {
